@@ -42,14 +42,15 @@ type commitCall struct {
 }
 
 type gmember struct {
-	name   string // client name, e.g. m0.1 (slot 0, incarnation 1)
-	slot   int
-	cl     *kgo.Client
-	stop   chan struct{}
-	done   chan struct{}
-	polls  []*pollRec
-	closed bool
-	fenced bool
+	closeSeq uint64 // event at which Close/LeaveGroup was invoked
+	name     string // client name, e.g. m0.1 (slot 0, incarnation 1)
+	slot     int
+	cl       *kgo.Client
+	stop     chan struct{}
+	done     chan struct{}
+	polls    []*pollRec
+	closed   bool
+	fenced   bool
 }
 
 type groupState struct {
@@ -160,11 +161,11 @@ func (gs *groupState) newMember(slot, inc int) *gmember {
 				gs.ev(name, "revoke-exit", entry)
 			}),
 			kgo.OnPartitionsLost(func(_ context.Context, _ *kgo.Client, mp map[string][]int32) {
+				// a lost callback releases ownership just like a revoke
+				// (the property names both); only broker-side fencing,
+				// seen on the wire, puts a run out of scope
 				gs.ev(name, "lost-enter", mp)
-				gs.mu.Lock()
-				m.fenced = true
-				gs.fencedAt = name + " (OnPartitionsLost)"
-				gs.mu.Unlock()
+				gs.s.Probe("partitions_lost_callback")
 				gs.ev(name, "lost-exit", mp)
 			}),
 		)
@@ -361,6 +362,9 @@ func (gs *groupState) pollLoop(m *gmember, script []plan.Op, pattern []plan.Op) 
 
 func (gs *groupState) closeMember(m *gmember, how string) bool {
 	s := gs.s
+	gs.mu.Lock()
+	m.closeSeq = s.Seq()
+	gs.mu.Unlock()
 	close(m.stop)
 	t0 := s.Now()
 	done := make(chan struct{})
@@ -502,12 +506,24 @@ func scenGroup(s *Sim) {
 	if len(live) == 0 {
 		join(0)
 	}
+	s.Heal()
+	// quiet period: every pending membership change reaches the coordinator
+	// and no environment event is left, before "stable" is declared
+	lastEv := time.Duration(0)
+	for _, ev := range p.Events {
+		if d := time.Duration(ev.AtMs) * time.Millisecond; d > lastEv {
+			lastEv = d
+		}
+	}
+	if d := lastEv - s.Now(); d > 0 {
+		time.Sleep(d)
+	}
+	time.Sleep(20 * time.Second)
 	gs.mu.Lock()
 	gs.stableSeq = s.Seq()
 	gs.genAtStable = gs.maxGen
 	gs.mu.Unlock()
-	s.Heal()
-	s.Logf("HEAL; membership stable with %d members", len(live))
+	s.Logf("HEAL; membership stable with %d members at generation %d", len(live), gs.genAtStable)
 	prodDone := make(chan struct{})
 	go func() { prodWG.Wait(); close(prodDone) }()
 	select {
@@ -772,6 +788,16 @@ func (gs *groupState) checkSync(r *WireReq, req *kmsg.SyncGroupRequest) {
 // checkCommits: C09.
 func (gs *groupState) checkCommits(admin *RawCli, live map[int]*gmember) {
 	s := gs.s
+	// never hold the harness lock across a network round trip: a goroutine
+	// parked on a sync.Mutex is not durably blocked and would stall the bubble
+	var brokerView map[tpKey]int64
+	if s.P.Knob("disable_autocommit", 0) != 0 {
+		brokerView = gs.fetchCommitted(admin)
+	}
+	views := map[string]map[string]map[int32]kgo.EpochOffset{}
+	for _, lm := range live {
+		views[lm.name] = lm.cl.CommittedOffsets()
+	}
 	gs.mu.Lock()
 	defer gs.mu.Unlock()
 	for client, calls := range gs.commits {
@@ -795,7 +821,10 @@ func (gs *groupState) checkCommits(admin *RawCli, live map[int]*gmember) {
 				if c.invokeSeq > w.seq {
 					break
 				}
-				match := len(c.offsets) == len(w.offsets)
+				// CommitUncommittedOffsets decides its own content (a subset
+				// of what this member polled); the other calls carry exactly
+				// what the application passed.
+				match := len(c.offsets) == len(w.offsets) || c.kind == "commit_uncommitted"
 				for k, o := range w.offsets {
 					if c.offsets[k] != o {
 						match = false
@@ -828,23 +857,16 @@ func (gs *groupState) checkCommits(admin *RawCli, live map[int]*gmember) {
 		if len(want) == 0 || s.P.Knob("disable_autocommit", 0) == 0 {
 			continue
 		}
-		got := gs.fetchCommitted(admin)
+		got := brokerView
 		if got == nil {
 			continue
-		}
-		var m *gmember
-		for _, lm := range live {
-			if lm.name == client {
-				m = lm
-			}
 		}
 		for k, o := range want {
 			if g, ok := got[k]; !ok || g != o {
 				s.Violf("C09/final/broker-value", "%s: last successful commit of %s/%d was offset %d, the coordinator holds %d (present=%v)", client, k.t, k.p, o, g, ok)
 			}
 		}
-		if m != nil && len(gs.members) == 1 {
-			view := m.cl.CommittedOffsets()
+		if view, ok := views[client]; ok && len(gs.members) == 1 {
 			for k, o := range want {
 				if eo, ok := view[k.t][k.p]; ok && eo.Offset != o {
 					s.Violf("C09/final/client-view", "%s: CommittedOffsets reports %d for %s/%d, the last successful commit was %d", client, eo.Offset, k.t, k.p, o)
@@ -899,6 +921,10 @@ func (gs *groupState) judge(admin *RawCli, logs map[tpKey]*RefLog) {
 	if !gs.defaults {
 		gs.replayOwnership(true)
 	}
+	var finalCommitted map[tpKey]int64
+	if s.P.Knob("autocommit_check", 0) != 0 {
+		finalCommitted = gs.fetchCommitted(admin)
+	}
 	gs.mu.Lock()
 	defer gs.mu.Unlock()
 	// C31 (system level): no revocation between a poll that returned records
@@ -910,6 +936,9 @@ func (gs *groupState) judge(admin *RawCli, logs map[tpKey]*RefLog) {
 					continue
 				}
 				for _, e := range gs.evs {
+					if m.closeSeq != 0 && e.seq > m.closeSeq {
+						continue // CloseAllowingRebalance / LeaveGroup deliberately let the rebalance through
+					}
 					if e.member == m.name && (e.kind == "revoke-enter" || e.kind == "lost-enter") && e.seq > pr.ret && e.seq < pr.allowSeq {
 						s.Violf("C31/rebalance-during-poll", "%s: %s at event %d between a poll that returned %d records (event %d) and AllowRebalance (event %d)", m.name, e.kind, e.seq, len(pr.recs), pr.ret, pr.allowSeq)
 					}
@@ -962,7 +991,7 @@ func (gs *groupState) judge(admin *RawCli, logs map[tpKey]*RefLog) {
 				s.Probe("autocommit_request_checked")
 			}
 		}
-		if got := gs.fetchCommitted(admin); got != nil {
+		if got := finalCommitted; got != nil {
 			for k, o := range got {
 				l := logs[k]
 				if l == nil {
